@@ -7,7 +7,7 @@ Export ListNotations.
 Notation id := nat (only parsing).
 
 (** Strings are lists of Unicode code points. *)
-Definition str := list N.
+Notation str := (list N) (only parsing).
 
 (** Exceptions as values.  [HookExn k]: the exception raised by the k-th hook
     invocation of a call (the harness raises [HookFault(k)]). *)
